@@ -644,6 +644,7 @@ Definition wf_op (n : nat) (s : st) (o : op) : bool :=
   | OBufCopyData _ dst _ _ _ => live_buf s dst
   | OBusNew _ _ chans _ => 1 <=? chans
   | OBusFree _ | OBusClear _ | OBusGet _ | OBusGetn _ _ => true
+  | OBusSub _ off ch => (0 <=? off) && (1 <=? ch)
   | OBusSet u off values =>
     forallb w_num values && nonempty values && (0 <=? off) && (off + Z.of_nat (List.length values) <=? chans_of s u)
   | OBusSetn u off values => forallb w_num values && (0 <=? off) && (off <? chans_of s u)
